@@ -48,6 +48,50 @@ def rule_innov(repo, tier):
     return res
 
 
+def _gain_side(res, rid, f, Kx, node):
+    """side of the inverse: K = (P^- C^T) S^-1 - the innovation covariance S is inverted on the RIGHT of the cross covariance.  `solve(S, X)` is S^-1 X (left);
+    it gives the gain only with left=False or as solve(S, X^T)^T (S symmetric).  For diagonal P, Q, R, C all factors commute and the side is invisible."""
+    for c in ast.walk(Kx):
+        if not isinstance(c, ast.Call):
+            continue
+        nm = (dotted(c.func) or (c.func.attr if isinstance(c.func, ast.Attribute) else '')).split('.')[-1]
+        if nm in ('solve', 'cholesky_solve', 'lu_solve', 'lstsq', 'solve_triangular', 'solve_ex'):
+            left_false = any(k.arg == 'left' and isinstance(k.value, ast.Constant) and k.value.value is False for k in c.keywords)
+            # transposed as a whole: an enclosing .mT / .transpose(-1, -2) whose value is (a field of) this call
+            transposed = False
+            for o in ast.walk(Kx):
+                inner = None
+                if isinstance(o, ast.Attribute) and o.attr in ('mT', 'mH'):
+                    inner = o.value
+                elif isinstance(o, ast.Call) and isinstance(o.func, ast.Attribute) and o.func.attr in ('transpose', 'swapaxes'):
+                    inner = o.func.value
+                while isinstance(inner, ast.Attribute) and inner.attr in ('solution',):
+                    inner = inner.value
+                if isinstance(inner, ast.Subscript):
+                    inner = inner.value
+                if inner is c:
+                    transposed = True
+            okside = left_false or transposed
+            res.inst({'function': f.fq, 'gain solve': src(c)[:60], 'inverse applied on the right (left=False or transposed)': okside}, ('gain-side', src(c)[:60]))
+            if not okside:
+                res.add(Finding(rid, f, 'the gain is `%s` = S^-1 (P C^T): the innovation covariance is inverted on the LEFT; the Kalman gain is (P C^T) S^-1 '
+                                '(solve(.., left=False) or solve(S, (P C^T)^T)^T) - equal only when all factors commute (diagonal P, Q, R, C)' % src(c)[:60],
+                                node=node, construct='gain inverse on the wrong side'))
+        elif nm in ('pinv', 'inv', 'inverse', 'inv_ex', 'cholesky_inverse'):
+            # the inverse must be the last factor of the product that forms the gain
+            def chain_(n):
+                return chain_(n.left) + [n.right] if isinstance(n, ast.BinOp) and isinstance(n.op, ast.MatMult) else [n]
+            prods = [n for n in ast.walk(Kx) if isinstance(n, ast.BinOp) and isinstance(n.op, ast.MatMult) and any(x is c for x in chain_(n))]
+            if prods:
+                top = max(prods, key=lambda n: len(chain_(n)))
+                pos = [i for i, x in enumerate(chain_(top)) if x is c][0]
+                okpos = pos == len(chain_(top)) - 1 and len(chain_(top)) > 1
+                res.inst({'function': f.fq, 'gain product': src(top)[:60], 'inverse is the last factor': okpos}, ('gain-side', src(top)[:60]))
+                if not okpos:
+                    res.add(Finding(rid, f, 'in the gain `%s` the inverse of the innovation covariance is not the last factor: K = (P C^T) S^-1' % src(top)[:60],
+                                    node=node, construct='gain inverse on the wrong side'))
+
+
 @guarded
 def rule_gain(repo, tier):
     res = RuleResult('C13.GAIN', 'EKF: gain and posterior covariance are built from the propagated covariance A P A^T + Q; '
@@ -90,6 +134,8 @@ def rule_gain(repo, tier):
     if not ok:
         res.add(Finding('C13.GAIN', f, 'the Kalman gain applied to the innovation is not built from the propagated covariance only',
                         node=rets[0], construct='gain'))
+    for g in gains:
+        _gain_side(res, 'C13.GAIN', f, g.args[0], rets[0])
     # posterior covariance: in every matrix product of the update the gain acts from the LEFT on (C P^-) - (I - K C) P^-, P^- - K C P^-, P^- - K S K^T,
     # Joseph form.  P^- K C is a different matrix unless P^- and K C commute (diagonal systems).
     kd = None
@@ -369,6 +415,11 @@ def rule_inverse(repo, tier):
             if tol:
                 res.add(Finding('C13.INV', f, 'the innovation covariance is inverted with a truncation tolerance (%s): directions whose '
                                 'innovation variance is below the tolerance are dropped from the update' % ', '.join(tol), node=c))
+    # UKF: K = Pxy Py^-1 - same side obligation as the EKF gain
+    fu = repo.func(UKF, 'UKF.forward')
+    for a in ast.walk(fu.node):
+        if isinstance(a, ast.Assign) and len(a.targets) == 1 and isinstance(a.targets[0], ast.Name) and a.targets[0].id == 'K':
+            _gain_side(res, 'C13.INV', fu, a.value, a)
     # Cholesky-coloured noise in the particle filter (expected count zero today: MultivariateNormal is used)
     def chol_defects(fnode):
         out = []
